@@ -302,8 +302,6 @@ def run(ctx) -> None:
     shapes.check_passthrough(ctx, "R3", "cli._update", "vcs.commit",
                              {"new_version": "new_version", "commit_message": "commit_message", "tag_message": "tag_message",
                               "filepaths": ("set(cfg.file_patterns.keys())", "set(cfg.file_patterns)")})
-    shapes.check_passthrough(ctx, "R3", "cli._try_update", "cli._update",
-                             {"new_version": "new_version", "commit_message": "commit_message", "tag_message": "tag_message"})
     upd = prog.function("cli.update")
     # the shorthand expander: the internal function that update applies to the --commit-message / --tag-message option
     sub_fns = set()
@@ -328,7 +326,7 @@ def run(ctx) -> None:
             return shapes.flows_from(fn, tm, src)
         pred.__doc__ = f"cfg.{which}_message / --{which}-message template .format(**kwargs)"
         return pred
-    shapes.check_passthrough(ctx, "R3", "cli.update", "cli._try_update",
+    shapes.check_passthrough(ctx, "R3", "cli.update", "cli._update",
                              {"new_version": "new_version", "commit_message": formatted("commit"), "tag_message": formatted("tag")})
     # (c') which template: the command-line option whenever it was given (is not None) - expanded by the OLD/NEW shorthand -
     #      and the configured template, verbatim, otherwise
@@ -342,10 +340,11 @@ def run(ctx) -> None:
         upc = PathCond(ucfg, extra_atoms=[a_none, a_true], only=lambda t, _o=opt: t in (f"{_o} is None", _o), max_atoms=4)
         N, Tr = BF.var(a_none), BF.var(a_true)
         env = ~N | ~Tr                      # None is falsy
-        tu_calls = shapes.find_calls(prog, upd, "cli._try_update")
-        ctx.require(len(tu_calls) == 1, "update: expected one _try_update call")
-        arg = call_arg(tu_calls[0], prog.function("cli._try_update"), opt)
-        ctx.require(arg is not None, f"update: _try_update({opt}=...) not found")
+        toward = shapes.calls_toward(ctx, upd, "cli._update")
+        ctx.require(len(toward) == 1, "update: expected one call that leads to _update")
+        tu_calls = [toward[0][0]]
+        arg = call_arg(tu_calls[0], toward[0][1], opt)
+        ctx.require(arg is not None, f"update: {toward[0][1].qualname}({opt}=...) not found")
         facts: T.List[T.Tuple[ast.AST, BF, ast.AST]] = []
 
         def expand(e: ast.AST, cond: BF, at: ast.AST, depth: int = 0) -> None:
